@@ -1,14 +1,15 @@
 #!/bin/bash
 # usage: mt_batch.sh <log> "<name> <dir> <m#> <check...>" ...
+MT=${MT:-/tmp/mt}; export MT
 LOG=$1; shift
 for spec in "$@"; do
   set -- $spec
   NAME=$1; DIR=$2; M=$3; shift 3
-  cd /tmp/mt/repo && git reset -q --hard && git checkout -q --detach main
+  cd $MT/repo && git reset -q --hard && git checkout -q --detach main
   echo "== $NAME" >> $LOG
-  /verif/bin/confirm_mutant.sh /tmp/mt/repo $DIR/$M.patch.diff $DIR/$M.demo.rs >> $LOG 2>&1
+  /verif/bin/confirm_mutant.sh $MT/repo $DIR/$M.patch.diff $DIR/$M.demo.rs >> $LOG 2>&1
   if tail -3 $LOG | grep -q "66 passed.*demo_with_exit=101 demo_without_exit=0"; then
-    cp /tmp/mt/applied.diff $DIR/$M.applied.diff
+    cp $MT/applied.diff $DIR/$M.applied.diff
     /verif/bin/mt_run.sh $NAME $DIR/$M.applied.diff "$@" >> $LOG 2>&1
   else
     echo "MT $NAME not-confirmed" >> $LOG
